@@ -2,7 +2,7 @@
    The OCaml driver (ocaml/modelrun.ml) and the in-Coq cross-check both go through dispatch. *)
 From RcProxy Require Import Base.Bytes Base.Sx Base.Dec Gen.Generated Spec.KeySlot Model.Crc16
   Spec.RespGrammar Spec.SplitSpec Spec.CommandSpec
-  Model.RespBuf Model.Commands Model.ClientCodec Model.ClientFeed.
+  Model.RespBuf Model.Commands Model.ClientCodec Model.ClientFeed Model.ServerCodec.
 
 Definition e_hash (a : sx) : sx :=
   match a with SB k => sN (Hash k) | _ => bad end.
@@ -59,6 +59,64 @@ Definition o_c05 (a : sx) : sx :=
   | SL [SB k; SN z] =>
       if Z.eqb z (Z.of_N (key_slot k)) then ok
       else viol "slot-differs-from-key-slot-spec" [sN (key_slot k); SN z]
+  | _ => bad
+  end.
+
+(* ---- server reply decoder, handshake decoder, merge ---- *)
+Definition e_sdecode (a : sx) : sx :=
+  match a with
+  | SB b => match sdecode b with
+            | SWait => SL [SB (bs "wait")]
+            | SSpin => SL [SB (bs "invalid")]
+            | SHang => SL [SB (bs "hang")]
+            | SReply ty n => SL [SB (bs "nil"); sN ty; snat n]
+            end
+  | _ => bad
+  end.
+
+Definition e_initdecode (a : sx) : sx :=
+  match a with
+  | SL [SN step; SB b] =>
+      match init_decode step b with
+      | IWait => SL [SB (bs "wait"); SN 0%Z; SN 0%Z]
+      | IInvalid => SL [SB (bs "invalid-init"); SN 0%Z; SN 0%Z]
+      | IDone n => SL [SB (bs "nil"); snat n; SN 1%Z]
+      | IPass => SL [SB (bs "nil"); SN 0%Z; SN 0%Z]
+      end
+  | _ => bad
+  end.
+
+(* groups of a decoded multi-key request, as the server side sees them (slot -> keys) *)
+Definition groups_of_cmsg (m : cmsg) (args : list bytes) : list (N * list bytes) :=
+  if N.eqb (cm_type m) ReqMget || N.eqb (cm_type m) ReqDel then group_by Hash (fun k => k) (cm_keys m)
+  else if N.eqb (cm_type m) ReqMset then group_by Hash (fun k => k) (cm_keys m)
+  else map (fun sf => (fst sf, [cf_key (snd sf)])) (cm_body m).
+
+Fixpoint run_merge (limit : Z) (m : smsg) (replies : list (N * bytes)) (sent : bool) : list sx :=
+  match replies with
+  | [] => []
+  | (slot, rsp) :: rest =>
+      match sdecode rsp with
+      | SReply rty _ =>
+          match merge_step Hash limit m slot rty rsp with
+          | Fine None => SB [] :: run_merge limit m rest sent
+          | Fine (Some m') =>
+              if (sm_done m' && negb sent)%bool then SB (sm_rsp m') :: run_merge limit m' rest true
+              else SB [] :: run_merge limit m' rest sent
+          | Crash w => [SL [SB (bs "crash"); SB w]]
+          | Hang => [SL [SB (bs "hang")]]
+          end
+      | _ => [SL [SB (bs "reply-not-framed")]]
+      end
+  end.
+
+Definition e_merge (a : sx) : sx :=
+  match a with
+  | SL [SN limit; SB req; SL replies] =>
+      match decode limit req, map_opt (fun r => match r with SL [SN s; SB b] => Some (Z.to_N s, b) | _ => None end) replies with
+      | DOk m _, Some rs => SL (run_merge limit (smsg_of m (groups_of_cmsg m [])) rs false)
+      | _, _ => bad
+      end
   | _ => bad
   end.
 
@@ -241,14 +299,131 @@ Definition o_feed (a : sx) : sx :=
   | _ => bad
   end.
 
+(* ---- o_merge: C07 / C11 / C02(reply) / C17(reply size) on the merge suite ----
+   input (limit req ((slot reply) ...)) ; output: client bytes after each released reply *)
+Fixpoint array_elems (fuel : nat) (n : N) (l : bytes) : option (list bytes) :=
+  if N.eqb n 0 then (match l with [] => Some [] | _ => None end)
+  else match fuel with
+       | O => None
+       | S f =>
+           if has_prefix l (bs "$-1" ++ crlf)
+           then match array_elems f (n - 1) (skipn 5 l) with Some r => Some ((bs "$-1" ++ crlf) :: r) | None => None end
+           else match strict_bulk l with
+                | Some (v, rest) =>
+                    match array_elems f (n - 1) rest with Some r => Some (enc_bulk v :: r) | None => None end
+                | None => None
+                end
+       end.
+
+Definition split_array (b : bytes) : option (list bytes) :=
+  match take_line b with
+  | Some (mk :: digits, rest) =>
+      if negb (N.eqb mk 42) then None
+      else match strict_dec digits with Some n => array_elems (length rest) n rest | None => None end
+  | _ => None
+  end.
+
+Definition is_error_line (b : bytes) : bool :=
+  match b with
+  | 45 :: _ => match take_line b with Some (_, []) => true | _ => false end
+  | _ => false
+  end.
+
+Fixpoint first_index (k : bytes) (l : list bytes) : option nat :=
+  match l with [] => None | x :: r => if beqb x k then Some O else option_map S (first_index k r) end.
+
+Definition expected_mget (keys : list bytes) (replies : list (N * bytes)) : option bytes :=
+  let elem (k : bytes) : option bytes :=
+    let s := key_slot k in
+    match find (fun r => N.eqb (fst r) s) replies with
+    | Some (_, rb) =>
+        match split_array rb, first_index k (filter (fun x => N.eqb (key_slot x) s) keys) with
+        | Some es, Some i => nth_error es i
+        | _, _ => None
+        end
+    | None => None
+    end in
+  match map_opt elem keys with
+  | Some es => Some ([42] ++ itoa_nat (length keys) ++ crlf ++ concat es)
+  | None => None
+  end.
+
+Definition int_of_reply (b : bytes) : option N :=
+  match take_line b with
+  | Some (58 :: digits, []) => strict_dec digits
+  | _ => None
+  end.
+
+Definition o_merge (a : sx) : sx :=
+  match a with
+  | SL [SL [SN limit; SB req; SL replies]; SL outs] =>
+      match strict_prefix req,
+            map_opt (fun r => match r with SL [SN s; SB b] => Some (Z.to_N s, b) | _ => None end) replies,
+            map_opt get_b outs with
+      | Some (args, _), Some rs, Some os =>
+          let total := concat os in
+          let t := match spec_class_of limit args with CServed t => t | _ => 0 end in
+          let keys := tl args in
+          let bad_kind (rb : bytes) : bool :=
+            if N.eqb t ReqMget then negb (match split_array rb with Some _ => true | None => false end)
+            else if N.eqb t ReqDel then negb (match int_of_reply rb with Some _ => true | None => false end)
+            else if N.eqb t ReqMset then negb (beqb rb (bs "+OK" ++ crlf))
+            else false in
+          let too_big := existsb (fun r => (limit <? Z.of_nat (length (snd r)))%Z) rs in
+          let early := concat (removelast os) in
+          if (N.eqb t ReqMget || N.eqb t ReqDel || N.eqb t ReqMset)%bool then
+            if (existsb (fun r => bad_kind (snd r)) rs || too_big)%bool then
+              (* C11: exactly one reply and it is an error *)
+              if is_error_line total then ok
+              else if match total with [] => true | _ => false end then viol "no-reply-after-fragment-error" []
+              else viol "fragment-error-not-reported-as-error" [SB total]
+            else
+              match early with
+              | _ :: _ => viol "reply-before-all-fragments-answered" [SB early]
+              | [] =>
+                  let expected :=
+                    if N.eqb t ReqMget then expected_mget keys rs
+                    else if N.eqb t ReqDel then
+                      match map_opt (fun r => int_of_reply (snd r)) rs with
+                      | Some ns => Some ([58] ++ itoa (fold_right N.add 0 ns) ++ crlf)
+                      | None => None
+                      end
+                    else Some (bs "+OK" ++ crlf) in
+                  match expected with
+                  | Some e =>
+                      if (limit <? Z.of_nat (length e))%Z
+                      then (if beqb total ErrMsgRspTooLarge then ok else viol "oversized-merged-reply-not-replaced" [])
+                      else if beqb total e then ok else viol "merged-reply-differs-from-spec" [SB e; SB total]
+                  | None => bad
+                  end
+              end
+          else
+            (* single-key: verbatim, or the size error *)
+            match rs with
+            | [(_, rb)] =>
+                if (limit <? Z.of_nat (length rb))%Z
+                then (if beqb total ErrMsgRspTooLarge then ok else viol "oversized-reply-not-replaced" [])
+                else if beqb total rb then ok else viol "reply-not-verbatim" [SB rb; SB total]
+            | _ => ok
+            end
+      | _, _, _ => bad
+      end
+  | _ => bad
+  end.
+
+(* o_sdecode: reply framing against the spec (a well-formed value is one reply of its own size) *)
 Definition entries : list (bytes * (sx -> sx)) :=
   [ (bs "hash", e_hash);
     (bs "keyslot", e_keyslot);
     (bs "o_c05", o_c05);
     (bs "cdecode", e_cdecode);
     (bs "cfeed", e_cfeed);
+    (bs "sdecode", e_sdecode);
+    (bs "initdecode", e_initdecode);
+    (bs "merge", e_merge);
     (bs "o_reqs", o_reqs);
-    (bs "o_feed", o_feed) ].
+    (bs "o_feed", o_feed);
+    (bs "o_merge", o_merge) ].
 
 Definition dispatch (name : bytes) (a : sx) : sx :=
   match assoc_b name entries with
